@@ -141,6 +141,37 @@ def judge_wrapper_history(area, qe, thr):
     return out, n
 
 
+CFG_STEPS = [("telescope_effective_area", 0.5), ("telescope_effective_area", 10.0), ("quantum_efficiency", 1.0), ("quantum_efficiency", 0.1), ("photo_electron_threshold", 1.0), ("photo_electron_threshold", 100.0)]
+
+
+def judge_wrapper_config_scan(seq):
+    """ONE EAS object on one live configuration whose optical parameters are changed in place between calls (an
+    area / efficiency / threshold scan): every call equals a fresh object built with the values in force (spy kernel)"""
+    from nuspacesim.simulation.eas_optical.eas import EAS
+
+    val = {"telescope_effective_area": 2.5, "quantum_efficiency": 0.2, "photo_electron_threshold": 10.0}
+    cfg = sim.make_config(extra={"detector": {"optical": dict(val)}})
+    evs = [(10.0, 5.0, 1.2), (25.0, 7.0, 0.7), (0.0, 1e3, 2.0), (-1.0, 3.0, 0.3), (10.0, 35.0, 1.0), (10.0, 0.9, 1.0)]
+
+    def call(eas):
+        n = len(evs)
+        beta = np.array([0.01 + 0.001 * i for i in range(n)])
+        eas.CphotAng = Spy({float(b): (ev[1], ev[2]) for b, ev in zip(beta, evs)})
+        pe, ce = eas(beta, np.array([e[0] for e in evs], dtype=float), np.ones(n), np.zeros(n), np.zeros(n), cloudf=None)
+        return np.asarray(pe, dtype=float).tobytes() + np.asarray(ce, dtype=float).tobytes()
+
+    eas = EAS(cfg)
+    for step in range(len(seq) + 1):
+        if step:
+            k, v = CFG_STEPS[seq[step - 1]]
+            val[k] = v
+            setattr(cfg.detector.optical, k, v)
+        want = call(EAS(sim.make_config(extra={"detector": {"optical": dict(val)}})))
+        if call(eas) != want:
+            return [("wrapper_uses_the_configuration_in_force", [CFG_STEPS[i] for i in seq[:step]], "same as a fresh object with these values", "differs")]
+    return []
+
+
 def ratio_alphabet():
     return [0.0, 1.0, float(np.nextafter(2.0, 0)), 2.0, float(np.nextafter(2.0, 3)), math.e, 10.0, 1e6]
 
@@ -250,6 +281,16 @@ def run(ctx):
     ctx.tick(n, ("wrapper_history",))
     for c, seq, e, o in v[:3]:
         ctx.violation(c, {"kind": "whist", "seq": seq}, e, o)
+    nscan = 0
+    for d in ((1, 2) if tier == "quick" else (1, 2, 3)):
+        for seq in itertools.product(range(len(CFG_STEPS)), repeat=d):
+            if any(CFG_STEPS[a][0] == CFG_STEPS[b][0] for a, b in zip(seq, seq[1:])) and d == 3:
+                continue
+            nscan += 1
+            ctx.tick(d + 1, ("wrapper_config_scan",) + tuple(seq))
+            for c, sq, e, o in judge_wrapper_config_scan(seq):
+                ctx.violation(c, {"kind": "wscan", "seq": list(seq)}, e, o)
+    ctx.cov["wrapper_configuration_scan_histories"] = nscan
     areas = [0.5, 2.5, 10.0]
     qes = [0.1, 0.2, 1.0]
     thrs = [1.0, 10.0, 100.0]
@@ -311,6 +352,8 @@ def replay(case):
         return [(c, e, o) for c, seq, e, o in v if seq == case["seq"]]
     if k == "wreal":
         return judge_wrapper_real(case["order"])
+    if k == "wscan":
+        return [(c, e, o) for c, sq, e, o in judge_wrapper_config_scan(tuple(case["seq"]))]
     if k == "mono":
         return judge_monotone(case["area"], case["qe"], case["thr"], case["ang"])
     if k == "kernel":
